@@ -1,7 +1,7 @@
 """C10 — local grids hold exactly the points inside the cutoff sphere, for any grid type; selection by index.
 
 gen:   hand model (coq/C10/C10_model.v).  The only generated file is C10_gen.v: the `config` record saying, for the
-       seven code sites where the pinned source deviates from the property, whether the implementation under test
+       eight code sites where the pinned source deviates from the property, whether the implementation under test
        shows the corrected behaviour.  Each flag is decided by running one directed witness history (the same
        witnesses as the `…_refuted` theorems) on the implementation and judging it with a brute-force oracle.
 prove: coq/C10/*.v — `query_refines_spec` (all histories) for the corrected configuration, `…_partial` for any
@@ -32,7 +32,8 @@ ERR = {"IndexError": "EIndex", "AttributeError": "EAttr", "ValueError": "EValue"
 CLS = {"Grid": "CGrid", "OneDGrid": "COneD", "AtomGrid": "CAtom", "MolGrid": "CMol", "UniformGrid": "CRect",
        "Tensor1DGrids": "CRect", "PeriodicGrid": "CPeriodic"}
 SELECTABLE = ("Grid", "OneDGrid", "PeriodicGrid")
-FLAGS = ["empty_ok", "tree_reset", "atom_tree_init", "local_public", "npint_grid", "npint_oned", "npint_periodic"]
+FLAGS = ["empty_ok", "tree_reset", "atom_tree_init", "local_public", "npint_grid", "npint_oned", "npint_periodic",
+         "periodic_empty_ok"]
 
 
 class Unencodable(Exception):
@@ -298,7 +299,9 @@ def judge(g, o, flat, ob, extra):
         kind = type(g).__name__
         if kind not in SELECTABLE:
             return ("skip", "class without selection")
-        if not l and (kind == "PeriodicGrid" or (kind == "OneDGrid" and extra is not None)):
+        # a OneDGrid with a domain / a PeriodicGrid with lattice vectors cannot have zero points (constructor precondition);
+        # a PeriodicGrid WITHOUT lattice vectors is documented to behave like the plain Grid, so it is judged
+        if not l and ((kind == "PeriodicGrid" and extra[1]) or (kind == "OneDGrid" and extra is not None)):
             return ("skip", "empty selection on a class that cannot be empty")
         if kind == "OneDGrid" and extra is not None and any(not extra[1] <= pub[i][0] <= extra[2] for i in l):
             return ("skip", "points outside the domain")
@@ -347,6 +350,8 @@ class History:
                         why = "empty_ok"
                     elif stale and o["radius"] != "inf":
                         why = "tree_reset"
+                elif kind == "PeriodicGrid" and not v[1][2] and ob == ("err", "EValue"):
+                    why = "periodic_empty_ok"
                 elif "npint" in o["index"]:
                     why = {"Grid": "npint_grid", "OneDGrid": "npint_oned", "PeriodicGrid": "npint_periodic"}.get(kind)
             if o["op"] == "query" and v[0] != "skip" and o["radius"] != "inf" and kind != "AtomGrid":
@@ -549,6 +554,9 @@ def witnesses():
         "npint_periodic": ("getitem_npint_refuted", "PeriodicGrid([[0,0,0],[1,0,0]],[1,2],10*eye(3))[np.int64(1)]",
                            {"kind": "PeriodicGrid", "points": pts2, "weights": [1, 2],
                             "realvecs": [[10, 0, 0], [0, 10, 0], [0, 0, 10]]}, [np1]),
+        "periodic_empty_ok": ("periodic_empty_refuted", "PeriodicGrid([[0,0,0],[1,0,0]],[1,2])[0:0]",
+                              {"kind": "PeriodicGrid", "points": pts2, "weights": [1, 2], "realvecs": None},
+                              [{"op": "getitem", "index": {"slice": [0, 0, None]}}]),
     }
 
 
@@ -619,7 +627,7 @@ def run(ctx: Ctx):
             raise RuntimeError(f"directed witness {flag} not judged: {v}")
     ctx.cov["impl_config"] = dict(flags)
     ctx.gen("C10_gen.v",
-            "(* generated on every run: which of the seven deviating code sites show the corrected behaviour on the\n"
+            "(* generated on every run: which of the eight deviating code sites show the corrected behaviour on the\n"
             "   implementation under test (decided by the directed witnesses, validated by the correspondence) *)\n"
             "From P Require Import C10_model.\n"
             "Definition impl_cfg : config := mkcfg " + " ".join(bl(flags[f]) for f in FLAGS) + ".\n", units)
@@ -790,7 +798,7 @@ def run(ctx: Ctx):
     ctx.cov["exhaustive"] = False
     ctx.trusted += [
         "hand model coq/C10/C10_model.v (tied by the history correspondence on every run)",
-        "configuration flags impl_cfg decided by 7 directed witness histories on the implementation (a wrong flag makes the "
+        "configuration flags impl_cfg decided by 8 directed witness histories on the implementation (a wrong flag makes the "
         "random-history correspondence fail)",
         "oracle hypothesis, validated against scipy.spatial.cKDTree on every run: oracle_ok bq := forall snap c k, NoDup (bq snap c k) "
         "/\\ forall i, In i (bq snap c k) <-> (i < length snap)%nat /\\ dist2 (nth i snap []) c <= k",
@@ -803,7 +811,7 @@ def run(ctx: Ctx):
         "integer coordinates and centres (exact squared distances); float round-off at ball boundaries is out of scope",
         "arrays are reassigned, never mutated in place (cKDTree does not copy its data)",
         "selection is claimed for Grid, OneDGrid, PeriodicGrid; an empty selection on a OneDGrid with a domain or on a "
-        "PeriodicGrid, and a selection of points lying outside the OneDGrid domain, are rejected by the constructors and "
+        "PeriodicGrid with lattice vectors, and a selection of points lying outside the OneDGrid domain, are rejected by the constructors and "
         "are treated as outside the property (modelled, not judged)",
         "PeriodicGrid.get_localgrid is property C11",
     ]
